@@ -718,7 +718,12 @@ func (w *world) apply(o []int) (int, int) {
 	case opUnregister:
 		sm.VerifClientRegistry().Unregister(id)
 	case opKick:
-		sm.KickOldControlConnection(int64(arg(o, 1)), cname(arg(o, 2)))
+		if arg(o, 3) != 0 {
+			// registry-level API with a NIL kick callback (client_registry.go permits it): the kicked connection must still be closed
+			sm.VerifClientRegistry().KickOldConnection(int64(arg(o, 1)), cname(arg(o, 2)), nil)
+		} else {
+			sm.KickOldControlConnection(int64(arg(o, 1)), cname(arg(o, 2)))
+		}
 	case opSweep:
 		return 0, sm.VerifCleanupStale()
 	case opTick:
